@@ -130,6 +130,20 @@ theorem types_normalised (h : wf base sbase stab tags = true) (stop : Nat) :
     | elf => simp at hr
     | other => simp at hr
 
+/-- **writes_confined** — the only thing `VisitMemRegions` changes in memory (it writes the
+normalised type back through the entry pointer) is this: with `k` = number of regions shown to
+the visitor, the memory afterwards is *exactly* the block `encode (normFirst k tags)` — the same
+tag list in which the first `k` entries of the first memory map carry `normType` of their type
+(`normEnts`: entries whose type is already in 1…4 are unchanged, the others hold
+MemReserved = 2 in their 4 type bytes) — at the same place, and the string table is untouched.
+So no byte other than the type fields of visited entries with a type outside 1…4 is written,
+for every stop position; without a memory map nothing is written (`normFirst` is the identity). -/
+theorem writes_confined (h : wf base sbase stab tags = true) (stop : Nat) :
+    (visitMemRegions (mkMem base sbase stab tags) stop).2.2 =
+      mkMem base sbase stab
+        (normFirst (visitMemRegions (mkMem base sbase stab tags) stop).1.length tags) :=
+  visitMem_mem h stop
+
 /-- **roundtrip_framebuffer** — `GetFramebufferInfo` plus the field reads through the returned
 pointer yield exactly the encoded address, pitch, width, height, bpp and type of the first
 framebuffer tag, and the six RGB position/size bytes exactly when the type is RGB (1); `nil`
@@ -147,26 +161,24 @@ theorem roundtrip_elf (h : wf base sbase stab tags = true) :
     visitElfSections (mkMem base sbase stab tags) = (expSections stab tags, .done) :=
   visitElf_encode h
 
-/-- **roundtrip_cmdline_partial** — `GetBootCmdLine` yields exactly the key/value map the words
-of the first command-line tag denote (`k=v` ↦ k→v, a bare word `k` ↦ k→k, a word with two or
-more `=` is dropped, later words override earlier ones; empty keys/values allowed), for any
-runs of blanks/tabs/newlines between, before and after the words.
-
-Full statement: the same for every `wf` block.  Proved here under the additional decidable
-hypothesis `cmdPlain`: separators consist of ASCII white space (9–13, 32) and no word contains
-one of the bytes C2/E1/E2/E3 (the UTF-8 lead bytes of the multi-byte white-space runes that
-`strings.Fields` also splits on).  Missing: command lines with multi-byte (Unicode) white space
-or those lead bytes inside words — the model implements them (`spaceWidth`) and the harness
-compares model, spec and Go code on such inputs, but the round-trip is not proved for them. -/
-theorem roundtrip_cmdline_partial (h : wf base sbase stab tags = true) (hp : cmdPlain tags = true) :
+/-- **roundtrip_cmdline** — `GetBootCmdLine` yields exactly the key/value map the words of the
+first command-line tag denote (`k=v` ↦ k→v, a bare word `k` ↦ k→k, a word with two or more `=`
+is dropped, later words override earlier ones; empty keys/values allowed), for any runs of
+white space before, between and after the words.  White space is everything `strings.Fields`
+splits on: the ASCII blanks 9–13 and 32 and the multi-byte runes U+0085, U+00A0, U+1680,
+U+2000–U+200A, U+2028, U+2029, U+202F, U+205F, U+3000 (`spaceWidth`); words are arbitrary
+non-NUL bytes — valid UTF-8 or not — that contain no such rune and no `=` inside a key/value
+(`wf`: `spaceRun` for separators, `partOk` for parts).  No UTF-8 validity hypothesis is needed:
+the model, like Go's decoder, works on bytes, and a white-space rune is recognised from its own
+bytes wherever it stands (`spaceWidth_ctx`, `spaceWidth_mono`). -/
+theorem roundtrip_cmdline (h : wf base sbase stab tags = true) :
     bootCmdLine (mkMem base sbase stab tags) = .ok (expCmd tags) := by
-  rw [bootCmdLine_encode h, cmd_plain hp]
+  rw [bootCmdLine_encode h, cmd_wf h]
 
 /-- **reads_in_bounds** — on a well-formed block none of the five entry points ever touches a
 byte outside the block and the string table: the model turns any such access into `fault`
 (and a loop that would not terminate into `fuel`), and neither can be the outcome — for every
-tag type searched, every visitor stop position, and every command-line text (also the ones
-outside `cmdPlain`). The type write-back of `VisitMemRegions` goes through the same checked
+tag type searched, every visitor stop position, and every command-line text. The type write-back of `VisitMemRegions` goes through the same checked
 access, so it too stays inside the block. -/
 theorem reads_in_bounds (h : wf base sbase stab tags = true) :
     (∀ t, ∃ r, findTag (mkMem base sbase stab tags) t = .ok r) ∧
@@ -200,19 +212,23 @@ example : firstOf 6 sampleTags = some (.mmap 28 0 [⟨0, 654336, 1⟩, ⟨0x9fc0
   decide
 example : expRegions sampleTags = [⟨0, 654336, 1⟩, ⟨0x9fc00, 1024, 2⟩, ⟨0x100000, 0xFFFFFFFFFFFFFFFF, 2⟩] := by decide
 example : firstOf 1 sampleTags = none := by decide
+example : normFirst 2 sampleTags =
+    [.other 21 [1, 2, 3], .fb 0xfd000000 4096 1024 768 32 1 0 [16, 8, 8, 8, 0, 8, 9],
+     .mmap 28 0 [⟨0, 654336, 1⟩, ⟨0x9fc00, 1024, 2⟩, ⟨0x100000, 0xFFFFFFFFFFFFFFFF, 0xFFFFFFFF⟩],
+     .mmap 24 0 [⟨0, 1, 1⟩], .other 0xFFFFFFFF []] := by decide
 
-/-- a block with a command line (runs of blanks and tabs, `a=b=c`, empty key, override) and an
-ELF table (empty name, shared suffix, a hole) — inside `wf` and `cmdPlain` -/
+/-- a block with a command line (runs of blanks, tabs and the multi-byte runes U+00A0, U+2003;
+`a=b=c`, empty key, override, a word of invalid UTF-8 ending in a lone lead byte E2) and an ELF
+table (empty name, shared suffix, a hole) — inside `wf` -/
 def sampleTags2 : List Tag :=
-  [.cmd [32, 9] [⟨[[0x61], [0x62]], [32, 32, 9]⟩, ⟨[[0x61], [0x62], [0x63]], [10]⟩, ⟨[[], [0x76]], [32]⟩,
-                 ⟨[[0x61]], []⟩],
+  [.cmd [32, 9, 0xC2, 0xA0] [⟨[[0x61], [0x62]], [32, 0xE2, 0x80, 0x83, 9]⟩, ⟨[[0x61], [0x62], [0x63]], [10]⟩,
+                 ⟨[[], [0x76]], [32]⟩, ⟨[[0xFF, 0xE2], [0x80, 0xE2]], [0xE3, 0x80, 0x80]⟩, ⟨[[0x61]], []⟩],
    .elf 64 1 [⟨0, 1, 6, 0x100000, 0, 0x2000, 0, 0, 16, 0⟩, ⟨1, 3, 0, 0x9000, 0, 7, 0, 0, 1, 0⟩,
               ⟨3, 1, 2, 5, 0, 0, 0, 0, 1, 0⟩, ⟨3, 8, 0xFFFFFFFF00000003, 7, 0, 9, 0, 0, 1, 0⟩] [0xAA]]
 
 set_option maxRecDepth 16384 in
 example : wf 0x1000 0x9000 [0, 0x2e, 0x74, 0x78, 0x74, 0, 0] sampleTags2 = true := by decide
-example : cmdPlain sampleTags2 = true := by decide
-example : expCmd sampleTags2 = [([], [0x76]), ([0x61], [0x61])] := by decide
+example : expCmd sampleTags2 = [([], [0x76]), ([0x61], [0x61]), ([0xFF, 0xE2], [0x80, 0xE2])] := by decide
 example : expSections [0, 0x2e, 0x74, 0x78, 0x74, 0, 0] sampleTags2 =
     [⟨[], 6, 0x100000, 0x2000⟩, ⟨[0x2e, 0x74, 0x78, 0x74], 0, 0x9000, 7⟩, ⟨[0x78, 0x74], 3, 7, 9⟩] := by decide
 
